@@ -33,8 +33,10 @@ META = dict(
                 'run by a differential check; whole-document round trips and the byte-level fixed point are evaluated on the implementation.'),
     level_note=('Trusted: Lean kernel + standard axioms; Pyc/Model/NumText.lean as the meaning of "%.7g" and of float32 parsing (checked against the runtime each run); '
                 'the equal spacing of float32 values around every non-power-of-two value is PROVED (Pyc/Proofs/Float32Grid.lean: localGrid_f32, interior_of_f32), so '
-                'float32_model_fixed_point is unconditional on the binary side; PARTIAL: the equal spacing of 7-digit decimals (needed only for the stronger statement that the very first '
-                'written text is already final) remains a hypothesis of text_fixed_point; the executable relation isBin24 of the model and the set IsF32 of the proof are two renderings of '
+                'float32_model_fixed_point is unconditional on the binary side; the equal spacing of the 7-digit decimals around every decimal that is not a power of ten is PROVED too '
+                '(Pyc/Proofs/Dec7Grid.lean: localGrid_dec7, dinterior_of_dec7), so the stronger dec7_text_fixed_point (the very first written text is already final) holds away from '
+                'powers of ten, and first_file_need_not_be_fixed exhibits a float32 value next to 1e28 where it fails, which is why the property starts at the first reloaded generation; '
+                'PARTIAL: the executable relation isBin24 of the model and the set IsF32 of the proof are two renderings of '
                 'the float32 format tied only by the correspondence run; there is no Lean model of the whole loader, so "reloaded model == model" for whole documents '
                 'is established by the oracle on generated and shipped documents, not by a theorem.'),
     technique='Lean 4 theorems on rounding stability over ordered fields + kernel-evaluated tables + correspondence of the rounding relations with the runtime + whole-document round-trip oracle',
